@@ -403,8 +403,10 @@ func rounds(a *analysis, evs []event) {
 	}
 }
 
-// signature hashes the order of event kinds in a re-key window; runs of the
-// same token are collapsed so that the number of packets does not matter.
+// signature hashes the order of transport-boundary event kinds (packet class
+// written/read per side, key change, harness requests and holds) in a re-key
+// window; runs of the same token are collapsed so that the number of packets
+// does not matter.
 func signature(win []event) string {
 	var toks []string
 	last := ""
@@ -425,16 +427,10 @@ func signature(win []event) string {
 			return "TL"
 		}
 		switch e.kind {
-		case evWStart:
-			t = s + "w("
-		case evWRet:
-			t = s + "w)"
 		case evTW:
 			t = s + ">" + cls(e.typ)
 		case evTR:
 			t = s + "<" + cls(e.typ)
-		case evRecv:
-			t = s + "rcv"
 		case evKeyChange:
 			t = s + "key"
 		case evReq:
